@@ -84,6 +84,28 @@ class Module(object):
             self._inl[key] = inlined(self, self.func(qual), depth, keep)
         return self._inl[key]
 
+    def nfunc(self, qual):
+        """func(qual) in normal form: counting while / index loops as for loops, append loops as comprehensions, str.format and
+        f-strings as %-formatting (no helper inlining - see ifunc for that)"""
+        if qual not in self.__dict__.setdefault("_nrm", {}):
+            new = clone(self.func(qual))
+            normalise_loops(new)
+            normalise_formats(new)
+            new._parent = getattr(self.func(qual), "_parent", None)
+            self._nrm[qual] = new
+        return self._nrm[qual]
+
+    def aliases(self):
+        """module-level  name = dotted.path  assignments (re-exports of functions defined elsewhere)"""
+        if "_aliases" not in self.__dict__:
+            self._aliases = {}
+            for n in self.tree.body:
+                if isinstance(n, ast.Assign) and len(n.targets) == 1 and isinstance(n.targets[0], ast.Name) and isinstance(n.value, (ast.Attribute, ast.Name)):
+                    d = dotted(n.value)
+                    if d:
+                        self._aliases[n.targets[0].id] = d
+        return self._aliases
+
     def cls(self, name):
         if name not in self.classes:
             raise AnalysisError("anchor vanished: class %s in %s" % (name, self.rel))
@@ -411,6 +433,22 @@ def inlined(mod, fn, depth=2, keep=()):
                 v = body[0].value
                 relocate([v], c.lineno)
                 return v
+            # if T: return A [else:] return B   ->   (A if T else B), nested
+            def as_expr(stmts):
+                if len(stmts) == 1 and isinstance(stmts[0], ast.Return) and stmts[0].value is not None:
+                    return stmts[0].value
+                if stmts and isinstance(stmts[0], ast.If) and len(stmts[0].body) == 1 and isinstance(stmts[0].body[0], ast.Return) and stmts[0].body[0].value is not None:
+                    rest = stmts[0].orelse if stmts[0].orelse else stmts[1:]
+                    if stmts[0].orelse and len(stmts) > 1:
+                        return None
+                    e2 = as_expr(list(rest))
+                    if e2 is not None:
+                        return ast.IfExp(test=stmts[0].test, body=stmts[0].body[0].value, orelse=e2)
+                return None
+            v = as_expr(list(body))
+            if v is not None:
+                relocate([v], c.lineno)
+                return v
             return c
 
     def inline_block(stmts):
@@ -456,11 +494,117 @@ def inlined(mod, fn, depth=2, keep=()):
             break
     ast.fix_missing_locations(new)
     normalise_loops(new)
+    normalise_formats(new)
     for n_ in ast.walk(new):
         for c in ast.iter_child_nodes(n_):
             c._parent = n_
     new._parent = getattr(fn, "_parent", None)
     return new
+
+
+_FIELD = re.compile(r"\{\{|\}\}|\{([^{}!:]*)(?:!([rsa]))?(?::([^{}]*))?\}")
+
+
+def _spec_to_printf(conv, spec):
+    """format-spec mini language -> printf conversion, or None when there is no equivalent"""
+    spec = spec or ""
+    m = re.match(r"^(?:(.)?([<>^=]))?([+\- ])?(#)?(0)?(\d+)?(,|_)?(?:\.(\d+))?([bcdeEfFgGnosxX%])?$", spec)
+    if m is None:
+        return None
+    fill, align, sign, alt, zero, width, grp, prec, ty = m.groups()
+    if (fill and fill != " ") or align in ("^", "=") or grp or (ty in ("b", "c", "n", "%")):
+        return None
+    if ty is None:
+        ty = "s" if (conv in (None, "s") and prec is None) else ("r" if conv == "r" else ("s" if prec is None else "g"))
+    if conv == "r" and ty == "s":
+        ty = "r"
+    flags = ("-" if align == "<" else "") + (sign if sign in ("+", " ") else "") + ("#" if alt else "") + ("0" if zero else "")
+    return "%" + flags + (width or "") + (("." + prec) if prec is not None else "") + ty
+
+
+def normalise_formats(fn):
+    """in place on a cloned function:  "..{}..".format(a, b)  and f-strings become the equivalent  "..%s.." % (a, b)  (same conversions,
+    widths and precisions), so that rules about what a writer prints read one spelling.  Anything without a printf equivalent is
+    left alone."""
+    class T(ast.NodeTransformer):
+        def visit_Call(self, c):
+            self.generic_visit(c)
+            if not (isinstance(c.func, ast.Attribute) and c.func.attr == "format" and isinstance(c.func.value, ast.Constant) and isinstance(c.func.value.value, str)):
+                return c
+            if any(isinstance(a, ast.Starred) for a in c.args) or any(k.arg is None for k in c.keywords):
+                return c
+            text = c.func.value.value
+            kws = {k.arg: k.value for k in c.keywords}
+            out, args, auto, ok = [], [], [0], [True]
+            pos = 0
+            for m in _FIELD.finditer(text):
+                out.append(text[pos:m.start()].replace("%", "%%"))
+                pos = m.end()
+                if m.group(0) in ("{{", "}}"):
+                    out.append(m.group(0)[0])
+                    continue
+                name, conv, spec = m.group(1), m.group(2), m.group(3)
+                pf = _spec_to_printf(conv, spec)
+                if pf is None or "." in name or "[" in name:
+                    ok[0] = False
+                    break
+                if name == "":
+                    k = auto[0]
+                    auto[0] += 1
+                    val = c.args[k] if k < len(c.args) else None
+                elif name.isdigit():
+                    val = c.args[int(name)] if int(name) < len(c.args) else None
+                else:
+                    val = kws.get(name)
+                if val is None:
+                    ok[0] = False
+                    break
+                if conv == "s" and not pf.endswith("s"):
+                    ok[0] = False
+                    break
+                out.append(pf)
+                args.append(val)
+            if not ok[0]:
+                return c
+            out.append(text[pos:].replace("%", "%%"))
+            fmt = ast.copy_location(ast.Constant(value="".join(out)), c)
+            right = args[0] if len(args) == 1 and not isinstance(args[0], ast.Tuple) else ast.Tuple(elts=args, ctx=ast.Load())
+            if len(args) == 1:
+                right = ast.Tuple(elts=args, ctx=ast.Load())
+            if not args:
+                return fmt if "%" not in "".join(out) else c
+            return ast.copy_location(ast.BinOp(left=fmt, op=ast.Mod(), right=right), c)
+
+        def visit_JoinedStr(self, j):
+            self.generic_visit(j)
+            out, args = [], []
+            for v in j.values:
+                if isinstance(v, ast.Constant) and isinstance(v.value, str):
+                    out.append(v.value.replace("%", "%%"))
+                elif isinstance(v, ast.FormattedValue):
+                    spec = ""
+                    if v.format_spec is not None:
+                        if not (isinstance(v.format_spec, ast.JoinedStr) and all(isinstance(x, ast.Constant) for x in v.format_spec.values)):
+                            return j
+                        spec = "".join(x.value for x in v.format_spec.values)
+                    conv = {-1: None, 115: "s", 114: "r", 97: "a"}.get(v.conversion, None)
+                    pf = _spec_to_printf(conv, spec)
+                    if pf is None or conv == "a":
+                        return j
+                    out.append(pf)
+                    args.append(v.value)
+                else:
+                    return j
+            if not args:
+                return j
+            fmt = ast.copy_location(ast.Constant(value="".join(out)), j)
+            return ast.copy_location(ast.BinOp(left=fmt, op=ast.Mod(), right=ast.Tuple(elts=args, ctx=ast.Load())), j)
+    T().visit(fn)
+    ast.fix_missing_locations(fn)
+    for n_ in ast.walk(fn):
+        for c in ast.iter_child_nodes(n_):
+            c._parent = n_
+    return fn
 
 
 def normalise_loops(fn):
@@ -511,6 +655,80 @@ def normalise_loops(fn):
             k += 1
         return out
     fn.body = fix(fn.body, [])
+    # second step:  for k in range(len(X)): ... X[k] ...   with k used for nothing else and X not rebound   ->   for X__item in X: ... X__item ...
+    for lp in [n for n in ast.walk(fn) if isinstance(n, ast.For)]:
+        it = lp.iter
+        if not (isinstance(lp.target, ast.Name) and isinstance(it, ast.Call) and src(it.func) == "range" and len(it.args) == 1 and not lp.orelse):
+            continue
+        a0 = it.args[0]
+        if isinstance(a0, ast.Name):
+            a0 = resolved(fn, a0, 2)       # ncolumns = len(X); for j in range(ncolumns)
+        if not (isinstance(a0, ast.Call) and src(a0.func) == "len" and len(a0.args) == 1 and isinstance(a0.args[0], (ast.Name, ast.Attribute))):
+            continue
+        X, k = a0.args[0], lp.target.id
+        xs = src(X)
+        uses = [n for b in lp.body for n in ast.walk(b) if isinstance(n, ast.Name) and n.id == k]
+        subs = [n for b in lp.body for n in ast.walk(b) if isinstance(n, ast.Subscript) and src(n.value) == xs and isinstance(n.slice, ast.Name) and n.slice.id == k
+                and isinstance(n.ctx, ast.Load)]
+        rebound = any(src(t) == xs or (isinstance(t, ast.Subscript) and src(t.value) == xs) for b in lp.body for n in ast.walk(b)
+                      if isinstance(n, (ast.Assign, ast.AugAssign)) for t in (n.targets if isinstance(n, ast.Assign) else [n.target]))
+        if not uses or len(uses) != len(subs) or rebound:
+            continue
+        item = "%s__item" % re.sub(r"\W", "_", xs)
+
+        class Rep(ast.NodeTransformer):
+            def visit_Subscript(self, n):
+                if any(n is q for q in subs):
+                    return ast.copy_location(ast.Name(id=item, ctx=ast.Load()), n)
+                return self.generic_visit(n)
+        lp.body = [Rep().visit(b) for b in lp.body]
+        lp.target = ast.copy_location(ast.Name(id=item, ctx=ast.Store()), lp.target)
+        lp.iter = clone(X)
+        ast.fix_missing_locations(lp)
+    # third step:  for t in S: name = t; BODY   (name assigned nowhere else in the loop, t not used in BODY)  ->  for name in S: BODY
+    for lp in [n for n in ast.walk(fn) if isinstance(n, ast.For)]:
+        if not (isinstance(lp.target, ast.Name) and lp.body and isinstance(lp.body[0], ast.Assign) and len(lp.body[0].targets) == 1
+                and isinstance(lp.body[0].targets[0], ast.Name) and isinstance(lp.body[0].value, ast.Name) and lp.body[0].value.id == lp.target.id):
+            continue
+        t, name = lp.target.id, lp.body[0].targets[0].id
+        rest = lp.body[1:]
+        if not rest or any(isinstance(x, ast.Name) and x.id == t for b in rest for x in ast.walk(b)):
+            continue
+        if any(isinstance(x, ast.Name) and x.id == name and isinstance(x.ctx, ast.Store) for b in rest for x in ast.walk(b)):
+            continue
+        lp.target = ast.copy_location(ast.Name(id=name, ctx=ast.Store()), lp.target)
+        lp.body = rest
+    # fourth step:  X = []; for t in S: X.append(E)   ->   X = [E for t in S]      (the loop body is that single statement)
+    def comp_blocks(stmts):
+        out = []
+        k = 0
+        while k < len(stmts):
+            st = stmts[k]
+            for attr in ("body", "orelse", "finalbody"):
+                if isinstance(getattr(st, attr, None), list) and not isinstance(st, (ast.FunctionDef, ast.ClassDef)):
+                    setattr(st, attr, comp_blocks(getattr(st, attr)))
+            for hnd in getattr(st, "handlers", []) or []:
+                hnd.body = comp_blocks(hnd.body)
+            nxt = stmts[k + 1] if k + 1 < len(stmts) else None
+            if isinstance(st, ast.Assign) and len(st.targets) == 1 and isinstance(st.targets[0], ast.Name) and isinstance(st.value, ast.List) and not st.value.elts \
+                    and isinstance(nxt, ast.For) and not nxt.orelse and len(nxt.body) == 1 and isinstance(nxt.body[0], ast.Expr):
+                c = nxt.body[0].value
+                X = st.targets[0].id
+                if isinstance(c, ast.Call) and isinstance(c.func, ast.Attribute) and c.func.attr == "append" and isinstance(c.func.value, ast.Name) \
+                        and c.func.value.id == X and len(c.args) == 1 and not c.keywords \
+                        and not any(isinstance(x, ast.Name) and x.id == X for x in ast.walk(c.args[0])) \
+                        and not any(isinstance(x, ast.Name) and x.id == X for x in ast.walk(nxt.iter)):
+                    comp = ast.ListComp(elt=c.args[0], generators=[ast.comprehension(target=nxt.target, iter=nxt.iter, ifs=[], is_async=0)])
+                    new = ast.Assign(targets=[ast.Name(id=X, ctx=ast.Store())], value=comp, lineno=nxt.lineno)
+                    ast.copy_location(new, nxt)
+                    ast.fix_missing_locations(new)
+                    out.append(new)
+                    k += 2
+                    continue
+            out.append(st)
+            k += 1
+        return out
+    fn.body = comp_blocks(fn.body)
     for n_ in ast.walk(fn):
         for c in ast.iter_child_nodes(n_):
             c._parent = n_
